@@ -51,7 +51,7 @@ def gen(rng, tier):
 
 def extra(ctx):
     """memcheck run: secrets are undefined; report every error with the case that raised it"""
-    out = []; lines = [c.line for c in ctx["cases"]]; rundir = ctx["rundir"]; t0 = time.time()
+    out = []; lines = [c.line for c in ctx["cases"]]; rundir = ctx["rundir"]; t0 = time.monotonic()
     n = len(lines); shards = min(core.NCPU, max(1, n // 10)); per = (n + shards - 1) // shards
     procs = []
     for s in range(shards):
@@ -79,7 +79,7 @@ def extra(ctx):
                 if nerr <= 4:
                     out.append(("memcheck", "secret-dependent branch or address (memcheck: use of an undefined value) in %s" % sig,
                                 dict(key="memcheck %s %s" % (case.split()[0], sig[:60]), cases=[dict(case=case)], implementation=block[:1200], build="valgrind memcheck, secrets marked undefined, -O2")))
-    ctx["extra_cov"].update(dict(memcheck_cases=n, memcheck_errors=nerr, memcheck_wall_s=round(time.time() - t0, 1), memcheck_cmd="valgrind -q --error-exitcode=97 drv_ct <cases>"))
+    ctx["extra_cov"].update(dict(memcheck_cases=n, memcheck_errors=nerr, memcheck_wall_s=round(time.monotonic() - t0, 1), memcheck_cmd="valgrind -q --error-exitcode=97 drv_ct <cases>"))
     return out
 
 def key(case, impl, model):
